@@ -383,12 +383,13 @@ def tag_tables(ctx, eng):
 
 
 FILE_GOOD = {
-    "flow": ['[{"resource":"f1","threshold":5}]', '[{"resource":"f1","threshold":7},{"resource":"f2","threshold":1.5}]'],
-    "system": ['[{"metricType":2,"triggerCount":5}]', '[{"metricType":3,"triggerCount":100}]'],
+    "flow": ['[{"resource":"f1","threshold":5}]', '[{"resource":"f1","threshold":8}]', '[{"resource":"f1","threshold":7},{"resource":"f2","threshold":1.5}]'],
+    "system": ['[{"metricType":2,"triggerCount":5}]', '[{"metricType":3,"triggerCount":7}]', '[{"metricType":3,"triggerCount":100}]'],
     "cb": ['[{"resource":"c","strategy":2,"retryTimeoutMs":1000,"statIntervalMs":1000,"threshold":3}]',
-           '[{"resource":"c","strategy":1,"retryTimeoutMs":1000,"statIntervalMs":1000,"threshold":0.5}]'],
-    "isolation": ['[{"resource":"i","threshold":3}]', '[{"resource":"i","threshold":4},{"resource":"j","threshold":1}]'],
-    "hotspot": ['[{"resource":"h","threshold":3,"specificItems":[{"valKind":0,"valStr":"7","threshold":1}]}]', '[{"resource":"h","threshold":4}]'],
+           '[{"resource":"c","strategy":1,"retryTimeoutMs":1000,"statIntervalMs":1000,"threshold":0.5}]',
+           '[{"resource":"c","strategy":2,"retryTimeoutMs":1000,"statIntervalMs":1000,"threshold":4}]'],
+    "isolation": ['[{"resource":"i","threshold":3}]', '[{"resource":"i","threshold":9}]', '[{"resource":"i","threshold":4},{"resource":"j","threshold":1}]'],
+    "hotspot": ['[{"resource":"h","threshold":3,"specificItems":[{"valKind":0,"valStr":"7","threshold":1}]}]', '[{"resource":"h","threshold":4}]', '[{"resource":"h","threshold":7}]'],
 }
 
 
@@ -403,14 +404,18 @@ def file_cases(ctx, n):
         pool = good + good + ["[]", "", "null", "[", "[1]", "garbage", " "]
         first = rng.choice(good + good + ["", "[", "none"])
         ops = [f"file.new {m} {first if first == 'none' else hexp(first)}"]
-        away, closed, absent = False, first == "none", first == "none"
+        away, closed, absent, have_away = False, first == "none", first == "none", False
         for _ in range(rng.randint(2, 7)):
             r = rng.random()
             if absent and not away:                    # removed for good / never existed: only a re-creation makes sense
                 ops.append(f"file.recreate {hexp(rng.choice(good))}")
                 absent = False
             elif away:                                   # the watcher is in its re-watch retry loop
-                if r < 0.70:
+                if r < 0.25 and have_away:
+                    ops.append("file.renameback")                               # the same file, unchanged: same size, same mtime
+                elif r < 0.40:
+                    ops.append(f"file.recreatep {hexp(rng.choice(good))}")       # a new file carrying the old file's mtime (cp -p)
+                elif r < 0.70:
                     ops.append(f"file.recreate {hexp(rng.choice(pool))}")
                 elif r < 0.85:
                     ops.append(f"file.replace {hexp(rng.choice(good))}")
@@ -418,13 +423,15 @@ def file_cases(ctx, n):
                     ops.append("file.giveup")
                     closed = absent = True
                 away = False
+            elif r < 0.15 and not closed:
+                ops.append(f"file.rewrite {hexp(rng.choice(good + good + ['[', '[]']))}")   # in place, identical mtime (same size when the lengths agree)
             elif r < 0.40:
                 ops.append(f"file.write {hexp(rng.choice(pool))}")
             elif r < 0.55:
                 ops.append(f"file.truncwrite {hexp(rng.choice(good + ['[]', '']))}")   # decodable only: the intermediate empty content may or may not be seen
             elif r < 0.80:
                 ops.append("file.rename")
-                away, absent = not closed, closed
+                away, absent, have_away = not closed, closed, True
             elif r < 0.90:
                 ops.append(f"file.replace {hexp(rng.choice(good + ['[', '[]']))}")
                 closed = True
